@@ -330,6 +330,10 @@ impl Prop for C03 {
             crate::props::c02::protocol("DijkstraDist", || DijkstraDist::new(&g, c.sources.iter().copied()), &items)?;
             crate::props::c02::clone_consistency("Dijkstra", || Dijkstra::new(&g, c.sources.iter().copied()), seq.len())?;
             crate::props::c02::clone_consistency("DijkstraDist", || DijkstraDist::new(&g, c.sources.iter().copied()), items.len())?;
+            for alt in [reprs::build_unit_weighted(&gen::path_dg(n / 2)), reprs::build_unit_weighted(&gen::path_dg(n + 3)), g.clone()] {
+                crate::props::c02::clone_from_consistency("Dijkstra", || Dijkstra::new(&g, c.sources.iter().copied()), || Dijkstra::new(&alt, std::iter::once(0)), seq.len())?;
+                crate::props::c02::clone_from_consistency("DijkstraDist", || DijkstraDist::new(&g, c.sources.iter().copied()), || DijkstraDist::new(&alt, std::iter::once(0)), items.len())?;
+            }
         }
 
         // classification
